@@ -282,13 +282,10 @@ func (c *Config) setField(name string, idx int, v value, options []Option) Error
 	opts := makeOptions(options)
 	p := parsePathIdx(name, idx, opts)
 
-	err := p.SetValue(c, opts, v)
-	if err != nil {
-		return err
-	}
-
+	// the value carries the metadata before it is stored: the intermediate
+	// nodes built for a dotted name take theirs from it
 	if opts.meta != nil {
 		v.setMeta(opts.meta)
 	}
-	return nil
+	return p.SetValue(c, opts, v)
 }
